@@ -73,8 +73,8 @@ static std::string opcode_names[Opcode::LAST_OP];
 
 static void buildNames()
 {
-    if (opcode_names[0].empty())
-    {
+    // Thread-safe one-time initialisation (function-local static initialiser)
+    static const bool built = []() {
         for (auto& o : _opcode_names)
         {
             opcode_names[o.first] =
@@ -82,7 +82,9 @@ static void buildNames()
                     ? o.second.substr(3)
                     : o.second;
         }
-    }
+        return true;
+    }();
+    (void)built;
 }
 
 std::string Opcode::toString(Opcode op)
@@ -115,15 +117,15 @@ std::string Opcode::toScmString(Opcode op)
 
 Opcode::Opcode Opcode::fromScmString(std::string s)
 {
-    // Lazy initialization of string -> Opcode map
-    static std::map<std::string, Opcode> inverse;
-    if (inverse.size() == 0)
-    {
+    // Lazy, thread-safe initialization of string -> Opcode map
+    static const std::map<std::string, Opcode> inverse = []() {
+        std::map<std::string, Opcode> m;
         for (unsigned i=0; i < LAST_OP; ++i)
         {
-            inverse[toScmString(Opcode(i))] = Opcode(i);
+            m[toScmString(Opcode(i))] = Opcode(i);
         }
-    }
+        return m;
+    }();
 
     // Be liberal in what you accept
     boost::algorithm::to_lower(s);
